@@ -18,19 +18,19 @@ open Pool.Digest
 
 def askRequired (v : Nat) : List String :=
   ["a.nonce[:]", "uint32(a.Version)", "a.FixedRate", "a.Amt", "a.LeaseDuration", "uint64(a.MaxBatchFeeRate)"] ++
-  (if v ≥ Gen.orderVersionNodeTierMinMatch then ["uint32(a.MinUnitsMatch)"] else []) ++
-  (if v ≥ Gen.orderVersionChannelType then ["uint8(a.ChannelType)"] else [])
+  (if v ≥ Gen.C12.orderVersionNodeTierMinMatch then ["uint32(a.MinUnitsMatch)"] else []) ++
+  (if v ≥ Gen.C12.orderVersionChannelType then ["uint8(a.ChannelType)"] else [])
 
 def bidRequired (v : Nat) : List String :=
   ["b.nonce[:]", "uint32(b.Version)", "b.FixedRate", "b.Amt", "b.LeaseDuration", "uint64(b.MaxBatchFeeRate)"] ++
-  (if v ≥ Gen.orderVersionNodeTierMinMatch then ["uint32(b.MinNodeTier)", "uint32(b.MinUnitsMatch)"] else []) ++
-  (if v ≥ Gen.orderVersionSelfChanBalance then ["uint64(b.SelfChanBalance)"] else []) ++
-  (if v ≥ Gen.orderVersionSidecarChannel then ["isSidecar"] else []) ++
-  (if v ≥ Gen.orderVersionChannelType then ["uint8(b.ChannelType)"] else [])
+  (if v ≥ Gen.C12.orderVersionNodeTierMinMatch then ["uint32(b.MinNodeTier)", "uint32(b.MinUnitsMatch)"] else []) ++
+  (if v ≥ Gen.C12.orderVersionSelfChanBalance then ["uint64(b.SelfChanBalance)"] else []) ++
+  (if v ≥ Gen.C12.orderVersionSidecarChannel then ["isSidecar"] else []) ++
+  (if v ≥ Gen.C12.orderVersionChannelType then ["uint8(b.ChannelType)"] else [])
 
 def allVersions : List Nat :=
-  [Gen.orderVersionDefault, Gen.orderVersionNodeTierMinMatch, Gen.orderVersionLeaseDurationBuckets,
-   Gen.orderVersionSelfChanBalance, Gen.orderVersionSidecarChannel, Gen.orderVersionChannelType]
+  [Gen.C12.orderVersionDefault, Gen.C12.orderVersionNodeTierMinMatch, Gen.C12.orderVersionLeaseDurationBuckets,
+   Gen.C12.orderVersionSelfChanBalance, Gen.C12.orderVersionSidecarChannel, Gen.C12.orderVersionChannelType]
 
 def covers (f : Gen.DigestFn) (required : Nat → List String) : Prop :=
   ∀ v ∈ allVersions, ∃ c ∈ f.cases, v ∈ c.versions ∧ required v ⊆ c.args.map (·.expr)
@@ -42,7 +42,7 @@ instance (f : Gen.DigestFn) (required : Nat → List String) : Decidable (covers
 every term the version defines (nonce, version, rate, amount, lease duration, max batch fee rate; min match
 and node tier from v1; self channel balance from v3; sidecar flag from v4; channel type from v5). -/
 theorem C12_required_terms_present :
-    covers Gen.askDigest askRequired ∧ covers Gen.bidDigest bidRequired := by decide
+    covers Gen.C12.askDigest askRequired ∧ covers Gen.C12.bidDigest bidRequired := by decide
 
 /-! ## (R) the digest functions and SubmitOrder's locals are as modelled -/
 
@@ -56,7 +56,7 @@ def argOK (parse : String → Option Term) (a : Gen.DigestArg) : Bool :=
   match parse a.expr with
   | none => false
   | some tm =>
-    some (encTerm dummy tm).widthClass == writerWidth Gen.codecCases a.goType &&
+    some (encTerm dummy tm).widthClass == writerWidth Gen.Codec.codecCases a.goType &&
     (tm != .nonce || a.goType == "[32]byte[:]")
 
 def sidecarPre : List String := ["var isSidecar uint8", "if b.SidecarTicket != nil { isSidecar = 1 }"]
@@ -73,21 +73,24 @@ def fnOK (parse : String → Option Term) (f : Gen.DigestFn) (tag dflt : String)
 model assumes: switch on the order version, one `WriteElements` per case with the element widths the model
 uses, `isSidecar` defined as `SidecarTicket != nil`, unknown version = error, SHA-256 of the buffer;
 `nonce := o.Nonce()`, `minChanAmt := uint64(MinUnitsMatch.ToSatoshis())`, units ↔ satoshis by the base
-unit, no order term assigned after the literals, channel-type / node-tier default clauses are errors. -/
+unit, no order term assigned after the literals, no local re-assigned except by the two enum switches,
+channel-type / node-tier default clauses are errors. -/
 theorem C12_code_shape_as_modelled :
-    fnOK parseAskExpr Gen.askDigest "a.Kit.Version"
+    fnOK parseAskExpr Gen.C12.askDigest "a.Kit.Version"
       "return result, fmt.Errorf(\"unknown version %d\", a.Kit.Version)" = true ∧
-    fnOK parseBidExpr Gen.bidDigest "b.Kit.Version"
+    fnOK parseBidExpr Gen.C12.bidDigest "b.Kit.Version"
       "return result, fmt.Errorf(\"unknown version %d\", b.Kit.Version)" = true ∧
-    Gen.submitLocals.lookup "nonce" = some "o.Nonce()" ∧
-    Gen.submitLocals.lookup "minChanAmt" = some "uint64(o.Details().MinUnitsMatch.ToSatoshis())" ∧
-    Gen.submitLocals.lookup "nodeTierEnum,err" = some "MarshallNodeTier(castOrder.MinNodeTier)" ∧
-    Gen.supplyToSatoshis = ["return btcutil.Amount(uint64(s) * uint64(BaseSupplyUnit))"] ∧
-    Gen.supplyFromSats = ["return SupplyUnit(uint64(sats) / uint64(BaseSupplyUnit))"] ∧
-    Gen.submitFieldAssigns.map (·.1) =
+    Gen.C12.submitLocals.lookup "nonce" = some "o.Nonce()" ∧
+    Gen.C12.submitLocals.lookup "minChanAmt" = some "uint64(o.Details().MinUnitsMatch.ToSatoshis())" ∧
+    Gen.C12.submitLocals.lookup "nodeTierEnum,err" = some "MarshallNodeTier(castOrder.MinNodeTier)" ∧
+    Gen.C12.supplyToSatoshis = ["return btcutil.Amount(uint64(s) * uint64(BaseSupplyUnit))"] ∧
+    Gen.C12.supplyFromSats = ["return SupplyUnit(uint64(sats) / uint64(BaseSupplyUnit))"] ∧
+    Gen.C12.submitFieldAssigns.map (·.1) =
       ["details.AllowedNodeIds", "details.NotAllowedNodeIds", "rpcRequest.Details", "rpcRequest.Details"] ∧
-    Gen.submitChannelTypeDefault.length = 1 ∧ Gen.marshallNodeTierDefault.length = 1 ∧
-    Gen.submitAuctionTypeDefault = [] := by decide
+    Gen.C12.submitVarAssigns.map (·.1) =
+      ["nodeAddrs", "channelType", "channelType", "channelType", "auctionType", "auctionType"] ∧
+    Gen.C12.submitChannelTypeDefault.length = 1 ∧ Gen.C12.marshallNodeTierDefault.length = 1 ∧
+    Gen.C12.submitAuctionTypeDefault = [] := by decide
 
 
 /-! ## the digest preimage determines every term of the version (⇒ "the digest changes") -/
@@ -308,6 +311,60 @@ theorem C12_signed_is_sent (H : Bytes → Bytes) (o : Order) (p : Params) (k : N
       rw [hb] at h4
       exact ⟨d, s, o', h1, h4, by unfold digest at hd ⊢; rw [digestPreimage_congr h5]; exact hd⟩
 
+/-! ## orders built by the RPC layer lie inside the guards -/
+
+/-- **Every order `ParseRPCOrder` builds is inside the domain of the theorems above**: within the Go types,
+minimum match ≥ 1 and < 2^32 (it comes from a uint32 field), `MinUnitsMatch · 100000 < 2^64`, a defined
+channel type, and — except in the outbound market — minimum match ≤ order units. -/
+theorem C12_rpc_orders_in_domain (version lease : Nat) (d : RpcOrder) (sel : Option Nat) (o : Order)
+    (hd : RpcWF version lease d) (hsel : ∀ s, sel = some s → s ≤ 2)
+    (h : parseRPCOrder version lease d sel = .ok o) :
+    TypeWF o ∧ MinMatchFits32 o ∧ 1 ≤ o.minUnitsMatch ∧ o.minUnitsMatch * 100000 < 18446744073709551616 ∧
+    o.channelType ≤ 2 ∧ o.minUnitsMatch = d.minUnitsMatch ∧
+    (d.auctionType ≠ outboundMarket → o.units < 4294967296 → o.minUnitsMatch ≤ o.units) :=
+  parsed_order_in_domain version lease d sel o hd hsel h
+
+/-- Statement-level shape of `ParseRPCOrder` = what `parseRPCOrder` models: the two guards of the min units
+match, the field assignments, the channel-type switch with its one special clause (UNKNOWN → selector or
+peer dependent) and an error default. -/
+theorem C12_parse_rpc_order_shape_as_modelled :
+    Gen.C12.parseOrderGuards = ["details.MinUnitsMatch == 0",
+      "kit.AuctionType != BTCOutboundLiquidity && details.MinUnitsMatch > uint32(kit.Units)"] ∧
+    Gen.C12.parseOrderAssigns =
+      [("kit.AuctionType", "AuctionType(details.AuctionType)"), ("kit.Version", "Version(version)"),
+       ("kit.FixedRate", "details.RateFixed"), ("kit.Amt", "btcutil.Amount(details.Amt)"),
+       ("kit.MaxBatchFeeRate", "chainfee.SatPerKWeight( details.MaxBatchFeeRateSatPerKw, )"),
+       ("kit.Units", "NewSupplyFromSats(kit.Amt)"), ("kit.UnitsUnfulfilled", "kit.Units"),
+       ("kit.LeaseDuration", "leaseDuration"), ("kit.MinUnitsMatch", "SupplyUnit(details.MinUnitsMatch)"),
+       ("kit.AllowedNodeIDs", "allowedNodeIDs"), ("kit.NotAllowedNodeIDs", "notAllowedNodeIDs"),
+       ("kit.IsPublic", "details.IsPublic")] ∧
+    Gen.C12.parseOrderChannelTypeSpecial.map (·.1) = ["0"] ∧ Gen.C12.parseOrderChannelTypeDefault.length = 1 ∧
+    Gen.C12.parseOrderChannelType.map (·.2) = [0, 1, 2] := by decide
+
+/-- the side-specific fields the RPC server adds to the kit `ParseRPCOrder` returns -/
+def withSide (k : Order) (isBid : Bool) (tier : Nat) (scb : Int) (sidecar un zc : Bool) (an cf : Nat) : Order :=
+  { k with isBid := isBid, minNodeTier := tier, selfChanBalance := scb, sidecar := sidecar, unannounced := un,
+           zeroConf := zc, announcement := an, confirmation := cf }
+
+/-- **Injectivity without the cast guard for orders that come through the RPC layer**: two asks (bids)
+whose kits were built by `ParseRPCOrder` and whose digests hash the same bytes agree on all terms of their
+version.  (`C12_preimage_injective_partial` with its guard discharged by `C12_rpc_orders_in_domain`.) -/
+theorem C12_rpc_orders_preimage_injective
+    (v l : Nat) (d : RpcOrder) (sel : Option Nat) (k : Order) (v' l' : Nat) (d' : RpcOrder) (sel' : Option Nat)
+    (k' : Order) (hd : RpcWF v l d) (hd' : RpcWF v' l' d') (hsel : ∀ s, sel = some s → s ≤ 2)
+    (hsel' : ∀ s, sel' = some s → s ≤ 2) (hk : parseRPCOrder v l d sel = .ok k)
+    (hk' : parseRPCOrder v' l' d' sel' = .ok k')
+    (isBid : Bool) (tier tier' : Nat) (scb scb' : Int) (sc sc' un un' zc zc' : Bool) (an an' cf cf' : Nat)
+    (ht : tier < 4294967296) (ht' : tier' < 4294967296) (hs : I64 scb) (hs' : I64 scb') (p : Bytes)
+    (hp : digestPreimage (withSide k isBid tier scb sc un zc an cf) = .ok p)
+    (hp' : digestPreimage (withSide k' isBid tier' scb' sc' un' zc' an' cf') = .ok p) :
+    terms (withSide k isBid tier scb sc un zc an cf) = terms (withSide k' isBid tier' scb' sc' un' zc' an' cf') := by
+  obtain ⟨w, m, _⟩ := parsed_order_in_domain v l d sel k hd hsel hk
+  obtain ⟨w', m', _⟩ := parsed_order_in_domain v' l' d' sel' k' hd' hsel' hk'
+  exact C12_preimage_injective_partial (withSide k isBid tier scb sc un zc an cf)
+    (withSide k' isBid tier' scb' sc' un' zc' an' cf') { w with tier := ht, scb := hs }
+    { w' with tier := ht', scb := hs' } m m' rfl p hp hp'
+
 /-! ## non-vacuity -/
 
 def exBid : Order :=
@@ -331,5 +388,13 @@ example : (toWire exBid exParams).toOption.isSome := by decide
 example : toWire { exBid with channelType := 9 } exParams = .error .channelType := by decide
 example : digestPreimage (withBookkeeping exBid 3 0 2 1 0 0 [] false true true) = digestPreimage exBid := by
   decide
+
+def exRpc : RpcOrder :=
+  { traderKey := List.replicate 33 2, rateFixed := 1234, amt := 700000, maxBatchFeeRate := 300,
+    orderNonce := List.replicate 32 9, minUnitsMatch := 7, channelType := 2, auctionType := 0, isPublic := true,
+    allowed := [(33, true)], notAllowed := [] }
+example : RpcWF 5 2016 exRpc := by constructor <;> decide
+example : (parseRPCOrder 5 2016 exRpc none).toOption.isSome := by decide
+example : parseRPCOrder 5 2016 { exRpc with minUnitsMatch := 8 } none = .error .minUnitsExceed := by decide
 
 end Pool.C12
